@@ -23,7 +23,7 @@ def gen_cases(ctx, n, variants, prefix="f"):
             ops = []
             for _ in range(1 + rng.below(3)):
                 if rng.chance(1, 2):
-                    ops.append([1, val]); val += 1 + rng.below(3)
+                    ops.append([1 if rng.chance(1, 2) else 3, val]); val += 1 + rng.below(3)     # copy / move overload
                 else:
                     ops.append([2])
             threads.append(ops)
